@@ -111,6 +111,7 @@ pub struct Monitor {
     /// a call whose PopStack has just executed; checked at the next step
     pending_call_check: Option<CallRecord>,
     pending_handler: bool,
+    nested_handler_entries: usize,
     initial: Option<VmDepths>,
     final_halt_pc: Option<usize>,
     report: MonitorReport,
@@ -135,6 +136,7 @@ impl Monitor {
             calls: vec![],
             pending_call_check: None,
             pending_handler: false,
+            nested_handler_entries: 0,
             initial: None,
             final_halt_pc,
             report: MonitorReport::default(),
@@ -411,12 +413,20 @@ impl Monitor {
         // program never ends
         if let VmDispatch::Handler(_) = dispatch {
             if depths.has_last_error_address {
+                self.nested_handler_entries += 1;
+            } else {
+                self.nested_handler_entries = 0;
+            }
+            // (one handler entered from inside another is nesting, not growth; three deep
+            // without a RESUME in between is the pattern of a handler that is entered for
+            // ever)
+            if depths.has_last_error_address && self.nested_handler_entries >= 3 {
                 self.violation(
                     "I5",
                     pc,
                     None,
                     format!(
-                        "error raised at pc {} while an error handler is active is dispatched to the handler again (context depth {}): the handler is entered forever, one context deeper each time",
+                        "error raised at pc {} while an error handler is active is dispatched to the handler again, for the third time without a RESUME in between (context depth {}): the handler is entered forever, one context deeper each time",
                         pc, depths.context_states
                     ),
                 );
